@@ -212,8 +212,16 @@ fn config(thorough: bool) -> FixCfg {
 fn space(thorough: bool) -> Space {
     let full = ALPHABET.to_vec();
     if !thorough {
-        // d1 (delegate) × n1 (non-delegate)
-        return Space { families: vec![Family::new(vec![full.clone(), full], pulls(&[RefsAtKind::None, RefsAtKind::Tips, RefsAtKind::Stale, RefsAtKind::StaleV2]), vec![Scope::All], vec![D1])] };
+        // d1 (delegate) × n1 (non-delegate). Every offered state on one namespace while the other is
+        // honest, plus every state of d1 against a forged n1; the full 13 × 13 product is part of
+        // the thorough tier (each fetch spawns ~9 git processes: ≈1.5 CPU-s per item).
+        let kinds = [RefsAtKind::None, RefsAtKind::Tips, RefsAtKind::Stale, RefsAtKind::StaleV2];
+        return Space {
+            families: vec![
+                Family::new(vec![full.clone(), vec![Tamper::Honest, Tamper::BadSignature]], pulls(&kinds), vec![Scope::All], vec![D1]),
+                Family::new(vec![vec![Tamper::Honest], full.iter().copied().filter(|t| !matches!(t, Tamper::Honest | Tamper::BadSignature)).collect()], pulls(&kinds), vec![Scope::All], vec![D1]),
+            ],
+        };
     }
     // owners: d1, d2 (delegates, threshold 1), n1
     // (announcing d2 only is symmetric to announcing d1 only and is omitted)
@@ -509,6 +517,8 @@ fn main() {
     cov.insert("ms_per_fetch_cpu".into(), json!(((busy_ns.load(std::sync::atomic::Ordering::Relaxed) as f64 / 1e6 / n.max(1) as f64) * 10.0).round() / 10.0));
     cov.insert("fixture_build_s".into(), json!((fixture_s * 100.0).round() / 100.0));
     cov.insert("sweep_wall_s".into(), json!((sweep_s * 100.0).round() / 100.0));
+    // `finish` exits the process without running destructors: remove the fixture explicitly.
+    let _ = std::fs::remove_dir_all(fx.root.path());
     ctx.finish(
         cov,
         &[
